@@ -62,6 +62,22 @@ func (a *atk) evil(signMode, idMode int, ref *etree.Element) *etree.Element {
 	}
 	rec := sim.EvilAssertion(a.w.Env, id, a.r)
 	ac := a.w.Atk[a.r.IntN(len(a.w.Atk))]
+	renameAfterSigning := false
+	if signMode == 4 {
+		// content that will be encrypted to the SP may carry any signature the attacker can make: own key or a
+		// trusted certificate in KeyInfo, any canonicalisation (the inclusive ones too), a Reference that no longer
+		// points at the assertion
+		switch a.r.IntN(5) {
+		case 1:
+			rec.Sig = sim.DefaultSig(ac.Key, ac)
+		case 2:
+			rec.Sig = sim.DefaultSig(ac.Key, a.signer)
+		case 3, 4:
+			rec.Sig = sim.DefaultSig(ac.Key, ac)
+			rec.Sig.C14N = pick(a.r, sim.AllC14N[4:])
+			renameAfterSigning = a.r.IntN(2) == 0
+		}
+	}
 	switch signMode {
 	case 1: // attacker key, attacker certificate
 		rec.Sig = sim.DefaultSig(ac.Key, ac)
@@ -75,6 +91,9 @@ func (a *atk) evil(signMode, idMode int, ref *etree.Element) *etree.Element {
 	if err != nil {
 		el = etree.NewElement("saml:Assertion")
 		el.CreateAttr("xmlns:saml", sim.NSA)
+	}
+	if renameAfterSigning {
+		sim.SetID(el, fmt.Sprintf("_renamed%08x", a.r.Uint32()))
 	}
 	if signMode == 4 { // encrypted to the SP by the attacker
 		x, err := sim.EncryptedAssertionXML(&sim.EncSpec{DataAlg: pick(a.r, sim.DataAlgs), KeyAlg: sim.RSAOAEP, To: a.w.SPEnc}, []byte(sim.ElementString(el)), nil, nil)
@@ -752,6 +771,16 @@ func c01Oracle(g *Genuine, resp *types.Response, ai *saml2.AssertionInfo) (strin
 		a0 := &resp.Assertions[0]
 		if a0.Subject != nil && a0.Subject.NameID != nil && ai.NameID != a0.Subject.NameID.Value {
 			return "info-nameid-foreign", fmt.Sprintf("AssertionInfo.NameID %q is not the first accepted assertion's NameID", ai.NameID)
+		}
+		// session values are those of the first accepted assertion's AuthnStatement, or there are none
+		var wantIdx string
+		var wantAt, wantEnd *time.Time
+		if as := a0.AuthnStatement; as != nil {
+			wantIdx, wantAt, wantEnd = as.SessionIndex, as.AuthnInstant, as.SessionNotOnOrAfter
+		}
+		sameT := func(x, y *time.Time) bool { return (x == nil) == (y == nil) && (x == nil || x.Equal(*y)) }
+		if ai.SessionIndex != wantIdx || !sameT(ai.AuthnInstant, wantAt) || !sameT(ai.SessionNotOnOrAfter, wantEnd) {
+			return "info-session-values-foreign", fmt.Sprintf("AssertionInfo session values (index %q, authenticated at %v, ends %v) are not those of the first accepted assertion (index %q, %v, %v)", ai.SessionIndex, ai.AuthnInstant, ai.SessionNotOnOrAfter, wantIdx, wantAt, wantEnd)
 		}
 		if strings.Contains(ai.NameID, "evil") || ai.SessionIndex == "_evilsession" || ai.Values.Get("evil") != "" {
 			return "info-evil-content", fmt.Sprintf("AssertionInfo carries attacker content: NameID=%q SessionIndex=%q", ai.NameID, ai.SessionIndex)
